@@ -1050,6 +1050,38 @@ def show(v):
     return v
 
 
+def path_form_errors(after):
+    """in the loaded document every cell reference must have the form that fits its population: `../pop/i/comp` for
+    a population with instances, `../pop[i]` for a sized one, a bare index only in the non-instance classes"""
+    out = []
+    for ns in after["nets"]:
+        pops = {p["id"]: p for p in ns["pops"]}
+
+        def ok(ref, pop_id, bare_ok):
+            if ref[0] == "plain":
+                return bare_ok
+            p = pops.get(pop_id)
+            if p is None or ref[1] != pop_id:
+                return False
+            if p["insts"]:
+                return ref[0] == "slash" and ref[3] == p["comp"]
+            return ref[0] == "bracket"
+        for p in ns["projs"]:
+            for c in p["conns"] + p["connWDs"]:
+                if not (ok(c["pre"], p["pre"], False) and ok(c["post"], p["post"], False)):
+                    out.append("projection " + p["id"])
+        for p in ns["eprojs"] + ns["cprojs"]:
+            for k in ("plain", "insts", "instWs"):
+                for c in p[k]:
+                    if not (ok(c["pre"], p["pre"], k == "plain") and ok(c["post"], p["post"], k == "plain")):
+                        out.append("projection " + p["id"])
+        for l in ns["ilists"]:
+            for i in l["inputs"] + l["inputWs"]:
+                if not ok(i["target"], l["pop"], False):
+                    out.append("inputList " + l["id"])
+    return out
+
+
 def oracle(ctx, spec, before, werr, doc2, lerr, after):
     """the full property on the real code. before/after: Doc JSON of the real objects"""
     case = {"spec": spec}
@@ -1093,6 +1125,10 @@ def oracle(ctx, spec, before, werr, doc2, lerr, after):
                             % extra[0][1])
         else:
             keys.setdefault("C05:top-level-components-differ", "missing %s extra %s" % (missing[:2], extra[:2]))
+    pf = path_form_errors(after)
+    if pf and not amb:
+        keys.setdefault("C05:loaded-path-form", "a cell reference in the loaded %s does not have the form of its "
+                        "population (instance based: ../pop/i/comp, sized: ../pop[i])" % pf[0])
     for k in check_extras(spec, doc2):
         keys.setdefault(k, "a child element the format has no place for was dropped without an exception")
     for k, what in sorted(keys.items()):
